@@ -110,32 +110,33 @@ func (f UpdateHandlerFunc) HandleUpdate(s *channel.State, u ChannelUpdate, r *Up
 
 // Accept accepts the channel update.
 func (r *UpdateResponder) Accept(ctx context.Context) error {
-	defer func() {
-		r.done <- struct{}{}
-	}()
-
 	if ctx == nil {
 		return errors.New("context must not be nil")
 	}
 	if !r.called.TrySet() {
 		return errors.New("multiple calls on channel update responder")
 	}
+	// Only the one call that responds signals done: nobody receives a second
+	// time, a further signal would block the caller forever.
+	defer func() {
+		r.done <- struct{}{}
+	}()
 
 	return r.channel.acceptUpdate(ctx, r.pidx, r.req)
 }
 
 // Reject rejects the channel update.
 func (r *UpdateResponder) Reject(ctx context.Context, reason string) error {
-	defer func() {
-		r.done <- struct{}{}
-	}()
-
 	if ctx == nil {
 		return errors.New("context must not be nil")
 	}
 	if !r.called.TrySet() {
 		return errors.New("multiple calls on channel update responder")
 	}
+	// Only the one call that responds signals done, see Accept.
+	defer func() {
+		r.done <- struct{}{}
+	}()
 
 	return r.channel.rejectUpdate(ctx, r.pidx, r.req, reason)
 }
